@@ -71,8 +71,9 @@ size_t vg_a1, vg_a2;
  * every ghost value, so the index is masked to 0 when k is outside the text: STR_KIDX = k < len ? k : 0. */
 #define STR_KIDX(o, k)    ((k) & ((size_t) 0 - (size_t) ((k) < (size_t) (o)->len)))
 #define STR_OLD_AT(o, k)  __CPROVER_old((o)->s[STR_KIDX(o, k)])
-/* frame of a mutator: the three fields, the text buffer; the buffer may be reallocated */
-#define STR_ASSIGNS(o)    (o)->s, (o)->len, (o)->size, __CPROVER_object_whole((o)->s)
+/* frame of a mutator: the three fields, the text buffer (if any); the buffer may be reallocated.
+ * Ends in a conditional target group: append further targets with `;`. */
+#define STR_ASSIGNS(o)    (o)->s, (o)->len, (o)->size; (o)->s != NULL: __CPROVER_object_whole((o)->s)
 #define STR_UNCHANGED(o)  ((o)->s == __CPROVER_old((o)->s) && (o)->len == __CPROVER_old((o)->len) && \
                            (o)->size == __CPROVER_old((o)->size))
 
